@@ -4,6 +4,8 @@ import (
 	"context"
 	"encoding/json"
 	"fmt"
+	"math"
+	"strconv"
 
 	"github.com/smarthome-go/homescript/v3/homescript/errors"
 )
@@ -15,6 +17,9 @@ func marshalValue(self Value, span errors.Span, isInner bool, executor Executor)
 	case ValueInt:
 		return self.Inner, false, nil
 	case ValueFloat:
+		if math.Trunc(self.Inner) == self.Inner && !math.IsInf(self.Inner, 0) {
+			return json.RawMessage(strconv.FormatFloat(self.Inner, 'f', 1, 64)), false, nil // force ".0" like the VM
+		}
 		return self.Inner, false, nil
 	case ValueBool:
 		return self.Inner, false, nil
@@ -87,6 +92,12 @@ func unmarshalValue(span errors.Span, self interface{}) (*Value, *Interrupt) {
 	switch self := self.(type) {
 	case string:
 		return NewValueString(self), nil
+	case json.Number:
+		if asInt, err := strconv.ParseInt(self.String(), 10, 64); err == nil {
+			return NewValueInt(asInt), nil
+		}
+		asFloat, _ := self.Float64()
+		return NewValueFloat(asFloat), nil
 	case float64:
 		if float64(int64(self)) == self {
 			return NewValueInt(int64(self)), nil
